@@ -121,6 +121,12 @@ let handle cmd =
   | "col" -> let a = next_pt () in let b = next_pt () in let c = next_pt () in b2s (isCollinear a b c)
   | "cross" -> let a = next_pt () in let b = next_pt () in let c = next_pt () in string_of_z (crossProduct a b c)
   | "noop" -> "OK"
+  | "c09seg" ->
+    let ct = next_ct () in let fr = next_fr () in let fuel = nat_of_int (next_int ()) in
+    let s = next_paths () in let c = next_paths () in let os = next_paths () in
+    let a = next_pt () in let b = next_pt () in
+    let y = next_list next_q in let t = next_list next_q in
+    if c09_seg_check ct fr fuel s c os a b y t then "OK" else "FAIL"
   | "rectlines" ->
     let l = next_z () in let t = next_z () in let r = next_z () in let b = next_z () in
     let rc = { rl = l; rt = t; rr = r; rb = b } in
